@@ -13,7 +13,7 @@ for d in sorted(glob.glob(os.path.join(V, "neutral", "*", "patch.diff"))):
     subprocess.run(["git", "-C", repo, "checkout", "--", "."])
     if subprocess.run(["git", "-C", repo, "apply", d]).returncode != 0:
         print(d, "PATCH-DOES-NOT-APPLY"); continue
-    rs = chk._run_scenarios("replay", "verif-replay", ["hunt", "hunt_setops", "hunt_views", "c19_bounded"])
+    rs = chk._run_scenarios("replay", "verif-replay", os.environ.get("VERIF_HUNT_SCEN", "hunt,hunt_setops,hunt_views,c19_bounded").split(","))
     st = {r["name"]: r["status"] for r in rs}
     if any(v != "holds" for v in st.values()): bad += 1
     print(os.path.basename(os.path.dirname(d)), st, [r["line"][:200] for r in rs if r["status"] != "holds"], flush=True)
